@@ -397,6 +397,8 @@ const SINGLES: &[&str] = &[
     "", "00", "01", "004", "031", "5", "6", "22", "23", "24", "25", "27", "28", "29", "59", "10", "11", "26", "50", "51", "60", "73", "99", "108", "255",
     // values whose LOW BYTE is an assigned code (256 + 0/1/7/31/38/100, 512 + 4): a code is a number, not a byte
     "256", "257", "263", "287", "294", "356", "516", "65535", "1000",
+    // beyond the parser's saturation value (every one of these IS 65535, an unassigned code): 65536 + 0/1/3/31
+    "65536", "65537", "65539", "65567", "99999999",
 ];
 
 /// one well-formed attribute group; returns (text, number of parameters)
